@@ -405,6 +405,10 @@ class DescriptorTransaction(_TransactionBase):
         parent_descriptor_container = self._mdib.descriptions.handle.get_one(
             descriptor_container.parent_handle, allow_none=True)
         if parent_descriptor_container is not None:
+            if any(descr.Handle == parent_descriptor_container.Handle for descr in proc.descr_updated):
+                # more than one child of this parent is added / removed in this transaction:
+                # the parent gets one new version and is reported once.
+                return
             parent_descriptor_container.increment_descriptor_version()
             proc.descr_updated.append(parent_descriptor_container.mk_copy())
             self._update_corresponding_state(parent_descriptor_container)
